@@ -36,6 +36,17 @@ def plan(tier: str, seed: int) -> list[dict]:
 def gen_entries(rng: random.Random) -> list[tuple[bytes, str]]:
     n = rng.choice([1, 2, 3, 5, 8, 12, 20, 40])
     style = rng.choice(["single", "overlap", "mixed", "mixed"])
+    if rng.random() < 0.04:
+        # a big table: more than 256 entries, long texts
+        syll = ["ka", "ki", "ku", "ke", "ko", "sa", "shi", "su", "se", "so", "ta", "chi", "tsu", "te", "to", "n", "a", "i", "u", "e", "o", " ", "!", "?"]
+        texts = set()
+        while len(texts) < rng.choice([257, 300, 520]):
+            texts.add("".join(rng.choice(syll) for _ in range(rng.choice([1, 1, 2, 3, 6, 12]))))
+        out = []
+        for i, t in enumerate(sorted(texts)):
+            out.append((bytes([0xE0 + (i >> 8), i & 0xFF]) if i >= 200 else bytes([i]), t))
+        rng.shuffle(out)
+        return out
     texts: list[str] = []
     if style == "single":
         pool = list(ALPHA)
@@ -76,7 +87,7 @@ def gen_entries(rng: random.Random) -> list[tuple[bytes, str]]:
 def gen_string(rng: random.Random, ref: RefTable) -> str:
     texts = list(ref.enc)
     out = []
-    for _ in range(rng.choice([0, 1, 2, 4, 8, 16, 30])):
+    for _ in range(rng.choice([0, 1, 2, 4, 8, 16, 30]) if rng.random() < 0.95 else rng.choice([130, 300, 1100])):
         c = rng.random()
         if c < 0.55 and texts:
             out.append(rng.choice(texts))
